@@ -47,7 +47,7 @@ def run(tier, seed, corrupt=False):
     if len(by_id) != len(cases):
         raise vf.ToolError(f"harness returned {len(by_id)} results for {len(cases)} cases")
     # the unmutated encodings must be accepted, or nothing below means anything
-    for ty in ("tx", "full", "filtered", "metadata", "rollupdata"):
+    for ty in ("tx", "full", "filtered", "filtered_empty", "metadata", "rollupdata"):
         if bases.get(f"base:{ty}") != "value":
             v.mismatch(f"wire:{ty}:valid-encoding-not-accepted", {"outcome": bases.get(f"base:{ty}")})
     applied = 0
